@@ -86,15 +86,14 @@ class Engine:
 
 	# endregion
 
-	def check_type(self, type_name, count, mutants_per_value):
+	def check_type(self, type_name, count, mutants_per_value, values=None):
 		# pylint: disable=too-many-locals,too-many-branches,too-many-statements
 		ctx = self.ctx
 		net = self.net
 		typedef = net.types[type_name]
 		is_struct = 'struct' == typedef['k']
 		cases = []
-		for _ in range(count):
-			value = self.gen.value(type_name)
+		for value in (values if values is not None else [self.gen.value(type_name) for _ in range(count)]):
 			try:
 				obj = net.to_obj(type_name, value)
 				data = bytes(obj.serialize())
@@ -178,26 +177,30 @@ class Engine:
 
 		decoded_answers = self.ask_many(mutant_lines)
 		for (mutant, label, ident), model_answer in zip(mutant_meta, decoded_answers):
-			ctx.count(f'mutant:{label}')
-			if 'valid' != label:
-				ctx.case((net.name, type_name, mutant), None)
-			status, decoded, obj = self.impl_decode(type_name, mutant)
-			if 'timeout' == status:
-				ctx.count('mutant-timeouts')
-				continue
-			info = {'network': net.name, 'type': type_name, 'bytes': mutant.hex().upper(), 'mutation': label, 'from': ident['bytes']}
-			ctx.count(f'mutant-outcome:{status}')
-			if 'ok' == status:
-				self.check_ded(type_name, obj, decoded, info)
-			if label.startswith('reserved-flip') and 'ok' == status:
-				ctx.fail('property', f'{net.name}.{type_name}: a reserved member with a non-constant value is accepted ({label})', info)
-			if model_answer is not None:
-				if model_answer.startswith('ok '):
-					model_value = json.loads(model_answer[3:])
-					if 'ok' != status or decoded != model_value:
-						ctx.fail('corr', f'{net.name}.{type_name}: decode of {label} mutant differs (implementation {status})', dict(info, model=model_answer[:400], implementation=decoded))
-				elif 'ok' == status:
-					ctx.fail('corr', f'{net.name}.{type_name}: implementation accepts a {label} mutant the model rejects ({model_answer})', dict(info, implementation=decoded))
+			self.eval_mutant(type_name, mutant, label, ident, model_answer)
+
+	def eval_mutant(self, type_name, mutant, label, ident, model_answer):
+		ctx, net = self.ctx, self.net
+		ctx.count(f'mutant:{label}')
+		if 'valid' != label:
+			ctx.case((net.name, type_name, mutant), None)
+		status, decoded, obj = self.impl_decode(type_name, mutant)
+		if 'timeout' == status:
+			ctx.count('mutant-timeouts')
+			return
+		info = {'network': net.name, 'type': type_name, 'bytes': mutant.hex().upper(), 'mutation': label, 'from': ident['bytes']}
+		ctx.count(f'mutant-outcome:{status}')
+		if 'ok' == status:
+			self.check_ded(type_name, obj, decoded, info)
+		if label.startswith('reserved-flip') and 'ok' == status:
+			ctx.fail('property', f'{net.name}.{type_name}: a reserved member with a non-constant value is accepted ({label})', info)
+		if model_answer is not None:
+			if model_answer.startswith('ok '):
+				model_value = json.loads(model_answer[3:])
+				if 'ok' != status or decoded != model_value:
+					ctx.fail('corr', f'{net.name}.{type_name}: decode of {label} mutant differs (implementation {status})', dict(info, model=model_answer[:400], implementation=decoded))
+			elif 'ok' == status and 'err unsupported' != model_answer:
+				ctx.fail('corr', f'{net.name}.{type_name}: implementation accepts a {label} mutant the model rejects ({model_answer})', dict(info, implementation=decoded))
 
 	def has_empty_self_tested_member(self, type_name, value):
 		if not isinstance(value, dict) or 's' not in value:
@@ -328,21 +331,22 @@ def run(ctx, focus='C01'):
 
 
 def replay(ctx, payload):
+	"""Re-evaluates the stored value / mutant on the current working tree (property and correspondence)."""
 	case = payload['case']
 	print(payload['what'])
+	if 'network' not in case or case['network'] not in ('symbol', 'nem'):
+		run(ctx)
+		return
 	net = codec.Network(case['network'])
 	engine = Engine(ctx, net)
 	if 'mutation' in case:
 		data = bytes.fromhex(case['bytes'])
+		answer = ctx.driver.ask(f'dec {net.name} {case["type"]} {case["bytes"] or "-"}') if ctx.driver else None
 		print('implementation:', engine.impl_decode(case['type'], data)[:2])
-		if ctx.driver:
-			print('model:', ctx.driver.ask(f'dec {net.name} {case["type"]} {case["bytes"] or "-"}'))
+		print('model:', answer)
+		engine.eval_mutant(case['type'], data, case['mutation'], {'bytes': case.get('from', '')}, answer)
 	else:
-		engine.check_type(case['type'], 0, 0)
-		obj = net.to_obj(case['type'], case['value'])
-		print('implementation:', bytes(obj.serialize()).hex().upper(), obj.size)
-		if ctx.driver:
-			print('model:', ctx.driver.ask(f'enc {net.name} {case["type"]} {codec.dumps(case["value"])}'))
+		engine.check_type(case['type'], 0, 0, values=[case['value']])
 
 
 MANIFEST = {
